@@ -308,6 +308,12 @@ pub fn run(env: &mut Env) -> Outcome {
     let srv = world.server.borrow();
     let (expect, name) = match verdict.borrow().clone() {
         Some(x) => x,
+        None if special == Special::Unprotected && res.stage == 1 && s.connect_result.is_err() && res.auth_raw.is_empty() => {
+            // the client refused the CHALLENGE without SIGN/SEAL outright and sent no AUTHENTICATE: nothing was disclosed
+            ctxrc.borrow_mut().probe("unprotected_challenge_refused");
+            ctxrc.borrow_mut().nontrivial = true;
+            return Outcome::Pass;
+        }
         None => {
             // the conversation never reached the final round: the honest part failed
             return viol("c01/session-not-established", &format!("stage {}", res.stage), format!("NLA stopped before the final round: connect {:?}, AUTHENTICATE verdict {:?}, strict errors {:?}", s.connect_result, res.auth_verdict.as_ref().map(|r| r.as_ref().map(|_| ()).map_err(|e| e.clone())), res.strict_errors));
